@@ -1,0 +1,5 @@
+//go:build !verif
+
+package parameter
+
+func verifYield(site string) {}
